@@ -563,6 +563,9 @@ def script_walk(rng, cx, cfg, name, steps, with_rep=False, p=2, custom_ids=None)
         lines.append("REP")
     removed = []
     faces = [set(i for i, v in b) for b in cx.bds]
+    # option sets without swaps only remove and re-insert: balance the two, so that histories "remove, remove, insert something
+    # else, read" are frequent
+    rl_thr = 0.9
     for _ in range(steps):
         m = len(order)
         r = rng.random()
@@ -584,7 +587,7 @@ def script_walk(rng, cx, cfg, name, steps, with_rep=False, p=2, custom_ids=None)
                 removed.append(order.pop(k))
                 rowids.pop()
                 did = True
-        elif cfg.can("RL") and m >= 1 and r < 0.9:
+        elif cfg.can("RL") and m >= 1 and r < rl_thr and not (removed and not cfg.can("VS") and rng.random() < 0.5):
             lines.append("RL")
             removed.append(order.pop())
             rowids.pop()
